@@ -19,6 +19,11 @@ Legs (every leg is a complete product of a stated alphabet, nothing is sampled):
 (D) sanitiser: every token sequence up to a length bound from three alphabets (single tokens; composite tokens;
                wrapper* composite wrapper*).  Oracle: never raises; ok => the text is acceptable for an independent
                acceptor (strict RFC 8259 recogniser + documented limits) and the returned object is within limits.
+(D2) limits  : every documented limit (plan item 200, rationale 2000, 16 items) x how the length is made up: core length and
+               padding length around the limit x kind of core character (ASCII, non-ASCII, escaped, astral) x kind of padding
+               character (space, escaped tab/LF/CR, NBSP, ...) x placement (lead, trail, both, interior) x sibling content x wrapper;
+               item lists of 0..33 items that are identical / distinct / padded / partly blank.  Same oracle as (D), through
+               ``parse_and_validate`` and ``plan_with_llm``.
 """
 from __future__ import annotations
 
@@ -745,40 +750,56 @@ def _skip(s, i):
     return i
 
 
+_PLAIN_RUN = re.compile(r'[^"\\\x00-\x1f]*')   # characters that may appear unescaped inside a JSON string
+
+
+def _hex4(s, i):
+    h = s[i:i + 4]
+    if len(h) != 4 or any(ch not in _HEX for ch in h):
+        return None
+    return int(h, 16)
+
+
 def _p_string(s, i):
-    # s[i] == '"'
+    # s[i] == '"'.  Lengths are counted in Unicode code points (the unit of JSON Schema minLength / maxLength): an escaped
+    # surrogate pair is ONE character, exactly as a raw astral character is.
     i += 1
     n = len(s)
     buf = []
     while True:
+        m = _PLAIN_RUN.match(s, i)
+        if m.end() > i:
+            buf.append(m.group())
+            i = m.end()
         if i >= n:
             raise _Bad("unterminated string")
         c = s[i]
         if c == '"':
             return "".join(buf), i + 1
-        if ord(c) < 0x20:
+        if c != "\\":
             raise _Bad("control char in string")
-        if c == "\\":
-            i += 1
-            if i >= n:
-                raise _Bad("bad escape")
-            e = s[i]
-            if e in '"\\/':
-                buf.append(e)
-            elif e in "bfnrt":
-                buf.append({"b": "\b", "f": "\f", "n": "\n", "r": "\r", "t": "\t"}[e])
-            elif e == "u":
-                h = s[i + 1:i + 5]
-                if len(h) != 4 or any(ch not in _HEX for ch in h):
-                    raise _Bad("bad \\u escape")
-                buf.append(chr(int(h, 16)))  # surrogate pairs count as two; only lengths matter and this is generous
-                i += 4
-            else:
-                raise _Bad("bad escape")
-            i += 1
+        i += 1
+        if i >= n:
+            raise _Bad("bad escape")
+        e = s[i]
+        if e in '"\\/':
+            buf.append(e)
+        elif e in "bfnrt":
+            buf.append({"b": "\b", "f": "\f", "n": "\n", "r": "\r", "t": "\t"}[e])
+        elif e == "u":
+            cp = _hex4(s, i + 1)
+            if cp is None:
+                raise _Bad("bad \\u escape")
+            i += 4
+            if 0xD800 <= cp <= 0xDBFF and s.startswith("\\u", i + 1):
+                lo = _hex4(s, i + 3)
+                if lo is not None and 0xDC00 <= lo <= 0xDFFF:
+                    cp = 0x10000 + ((cp - 0xD800) << 10) + (lo - 0xDC00)
+                    i += 6
+            buf.append(chr(cp))
         else:
-            buf.append(c)
-            i += 1
+            raise _Bad("bad escape")
+        i += 1
 
 
 def _p_number(s, i):
@@ -1331,6 +1352,221 @@ def _llm_raw(raw_i):
 
 
 # =====================================================================================================
+# (D2) documented limits x how the length is made up
+# =====================================================================================================
+# Leg (D) meets every limit with ONE kind of content: a solid run of one ASCII letter (201 x "y", 2001 x "w", 17 x "i").  A limit
+# on "the length of a string" can be measured on many things that coincide for such content and differ otherwise: the value as
+# returned vs a trimmed / whitespace-collapsed copy, code points vs bytes vs UTF-16 units, the decoded value vs the JSON text that
+# encodes it (escapes), distinct vs all items.  This leg therefore enumerates, for every limited field, the product
+#     {core length c around the limit} x {padding length w} x {kind of core character} x {kind of padding character}
+#     x {where the padding sits} x {sibling content of the object} x {wrapper of the object}
+# and runs every resulting text through the sanitiser (and through plan_with_llm, which hands the sanitiser's object on).  The oracle
+# is the one of leg (D): never raises; ok => the text is one JSON object within the documented limits for the independent acceptor
+# AND the returned object is within the limits; lengths in code points (JSON Schema maxLength).
+LIMIT_FIELDS = {"item": LIM_ITEM_LEN, "rationale": LIM_RAT}
+# one unit = the JSON spelling of exactly ONE code point of the decoded value
+CORE_KINDS = [("ascii", "p"), ("latin", "\u00e9"), ("escaped-ascii", "\\u0070"), ("astral", "\U0001F600"),
+              ("astral-escaped", "\\ud83d\\ude00")]
+PAD_KINDS = [("space", [" "]), ("esc-tab", ["\\t"]), ("esc-newline", ["\\n"]), ("esc-cr", ["\\r"]), ("escaped-space", ["\\u0020"]),
+             ("no-break-space", ["\u00a0"]), ("ideographic-space", ["\u3000"]), ("mixed-whitespace", [" ", "\\n", "\\t", "\\r", "\u00a0", "\\u0020"]),
+             ("raw-tab", ["\t"])]            # raw-tab: a literal control character inside the string = not JSON at all
+PAD_NOT_JSON = ("raw-tab",)
+PLACES = ["lead", "trail", "both", "interior"]
+ITEM_CTX = ["only", "first-of-2", "last-of-16"]
+RAT_CTX = ["empty-plan", "full-plan"]
+WRAPS_QUICK = ["bare", "fenced-json"]
+WRAPS_THOROUGH = ["bare", "fenced-json", "fenced-untagged", "bare-in-whitespace"]
+_AT_LIMIT_ITEM = '"' + "p" * LIM_ITEM_LEN + '"'
+
+
+def limit_lengths(field, thorough):
+    """(core lengths, pad lengths) around the limit M of the field"""
+    M = LIMIT_FIELDS[field]
+    cs = [0, 1, M - 1, M, M + 1]
+    ws = [0, 1, 2, M, 3 * M + 100]
+    if thorough:
+        cs += [2, M // 2, 2 * M]
+        ws += [3, M - 1, M + 1]
+    return sorted(cs), sorted(ws)
+
+
+def limit_value(core, c, pad, w, place):
+    """JSON spelling (with quotes) of a string whose decoded value has c core characters and w padding characters, or None when
+    the placement is degenerate for these lengths (would repeat another placement)."""
+    cu = dict(CORE_KINDS)[core]
+    pu = dict(PAD_KINDS)[pad]
+    pads = [pu[i % len(pu)] for i in range(w)]
+    if w == 0:
+        if place != "lead" or pad != PAD_KINDS[0][0]:
+            return None
+        return '"' + cu * c + '"'
+    if c == 0 and place != "lead":
+        return None
+    if place == "lead":
+        body = "".join(pads) + cu * c
+    elif place == "trail":
+        body = cu * c + "".join(pads)
+    elif place == "both":
+        if w < 2:
+            return None
+        body = "".join(pads[:w // 2]) + cu * c + "".join(pads[w // 2:])
+    else:
+        if c < 2:
+            return None
+        body = cu * (c // 2) + "".join(pads) + cu * (c - c // 2)
+    return '"' + body + '"'
+
+
+def limit_wrap(body, wrap):
+    if wrap == "bare":
+        return body
+    if wrap == "fenced-json":
+        return "```json\n" + body + "\n```"
+    if wrap == "fenced-untagged":
+        return "```\n" + body + "\n```"
+    if wrap == "bare-in-whitespace":
+        return " \n\t" + body + "\r\n "
+    raise HarnessError("unknown wrapper %r" % wrap)
+
+
+def limit_text(field, sval, ctx, wrap):
+    if field == "item":
+        items = {"only": [sval], "first-of-2": [sval, '"x"'], "last-of-16": [_AT_LIMIT_ITEM] * 15 + [sval]}[ctx]
+        body = '{"plan":[' + ",".join(items) + '],"rationale":"r"}'
+    else:
+        plan = {"empty-plan": "", "full-plan": ",".join([_AT_LIMIT_ITEM] * 16)}[ctx]
+        body = '{"plan":[' + plan + '],"rationale":' + sval + '}'
+    return limit_wrap(body, wrap)
+
+
+# ---- number of plan items x what the items are ----
+COUNT_N_QUICK = [0, 1, 15, 16, 17, 33]
+COUNT_N_THOROUGH = [0, 1, 2, 15, 16, 17, 18, 32, 33, 64]
+COUNT_ITEMS = [
+    ("identical", lambda i: '"x"'),
+    ("distinct", lambda i: '"s%d"' % i),
+    ("padded-identical", lambda i: '" x "'),
+    ("at-limit-distinct", lambda i: '"%03d' % i + "p" * (LIM_ITEM_LEN - 3) + '"'),
+    ("every-other-blank", lambda i: '" "' if i % 2 else '"x"'),
+    ("every-other-empty", lambda i: '""' if i % 2 else '"x"'),
+    ("every-other-null", lambda i: 'null' if i % 2 else '"x"'),
+]
+
+
+def count_text(n, ik, wrap):
+    f = dict(COUNT_ITEMS)[ik]
+    return limit_wrap('{"plan":[' + ",".join(f(i) for i in range(n)) + '],"rationale":"r"}', wrap)
+
+
+def limit_case_text(case):
+    if case["field"] == "count":
+        return count_text(case["n"], case["items"], case["wrap"])
+    sval = limit_value(case["core"], case["c"], case["pad"], case["w"], case["place"])
+    if sval is None:
+        raise HarnessError("degenerate limit case %s" % J(case))
+    return limit_text(case["field"], sval, case["ctx"], case["wrap"])
+
+
+def _limit_sig(sig, case):
+    if not (sig.startswith("sanitiser:accepts") or sig.startswith("sanitiser:returns") or sig.startswith("plan_with_llm:p")):
+        return sig
+    if case["field"] == "count":
+        return "%s:plan-count" % sig
+    return "%s:%s-length:%s" % (sig, case["field"], "solid" if case["w"] == 0 else "padded")
+
+
+def check_limit_case(case, shapes):
+    """All oracles on one text of leg (D2).  Returns (violations, accepted?, text)."""
+    text = limit_case_text(case)
+    res, ok = check_string(text)
+    for shape in shapes:
+        r, _oc = check_plan_with_llm(text, shape)
+        res = res + r
+    desc = "; case=%s" % J(case)
+    return [(_limit_sig(sig, case), what + desc) for sig, what in res], ok, text
+
+
+def limit_items(thorough):
+    wraps = WRAPS_THOROUGH if thorough else WRAPS_QUICK
+    items = []
+    for field in sorted(LIMIT_FIELDS):
+        cs, _ws = limit_lengths(field, thorough)
+        for core, _u in CORE_KINDS:
+            for ctx in (ITEM_CTX if field == "item" else RAT_CTX):
+                for wrap in wraps:
+                    for c in cs:
+                        items.append(("len", field, core, ctx, wrap, c))
+    for n in (COUNT_N_THOROUGH if thorough else COUNT_N_QUICK):
+        for wrap in wraps:
+            items.append(("count", n, wrap))
+    return items
+
+
+def _limit_worker(chunk, st: Stats, thorough):
+    shapes = ("obj", "dict") if thorough else ("obj",)
+    total = 0
+
+    def one(case, over_by_padding_only=False):
+        nonlocal total
+        res, ok, text = check_limit_case(case, shapes)
+        total += 1
+        st.add("plan_with_llm_calls", len(shapes))
+        if ok:
+            st.add("limit_accepted"); st.add("nontrivial")
+            if case["field"] != "count" and case["w"] > 0:
+                st.add("limit_accepted_with_padding")
+        if over_by_padding_only:
+            st.add("limit_over_by_padding_only")
+        cls = case["field"] if case["field"] == "count" else "%s:%s" % (case["field"], "solid" if case["w"] == 0 else "padded")
+        st.distinct("outcomes", ("limit", cls, "accepted" if ok else "rejected"))
+        for sig, what in res:
+            viol(st, sig, what, dict(case, kind="limit"))
+
+    for item in chunk:
+        if item[0] == "count":
+            _, n, wrap = item
+            for ik, _f in COUNT_ITEMS:
+                one({"field": "count", "n": n, "items": ik, "wrap": wrap})
+            continue
+        _, field, core, ctx, wrap, c = item
+        M = LIMIT_FIELDS[field]
+        _cs, ws = limit_lengths(field, thorough)
+        for w in ws:
+            for pad, _u in PAD_KINDS:
+                for place in PLACES:
+                    if limit_value(core, c, pad, w, place) is None:
+                        continue
+                    one({"field": field, "core": core, "c": c, "pad": pad, "w": w, "place": place, "ctx": ctx, "wrap": wrap},
+                        over_by_padding_only=(1 <= c <= M < c + w and pad not in PAD_NOT_JSON))
+    st.add("transitions", total * (1 + len(shapes)))
+    st.add("validated", total * (1 + len(shapes)))
+    st.add("states", total)
+    st.add("limit_texts", total)
+    if chunk and chunk[0][0] == "len":
+        _, field, core, ctx, wrap, c = chunk[0]
+        st.sample({"kind": "limit", "field": field, "core": core, "c": c, "pad": "space", "w": 1, "place": "lead", "ctx": ctx, "wrap": wrap})
+
+
+def _selfcheck_limit_builder():
+    """machinery check: the spelling built by limit_value decodes (for the reference recogniser) to exactly c + w characters"""
+    for core, _u in CORE_KINDS:
+        for pad, _p in PAD_KINDS:
+            for place in PLACES:
+                for c, w in ((0, 3), (1, 1), (2, 7), (5, 0), (4, 2)):
+                    sv = limit_value(core, c, pad, w, place)
+                    if sv is None:
+                        continue
+                    try:
+                        v = strict_json(sv)
+                    except _Bad:
+                        if pad in PAD_NOT_JSON:
+                            continue
+                        raise HarnessError("limit_value builds a non-JSON spelling: %r" % sv)
+                    if pad in PAD_NOT_JSON or not isinstance(v, str) or len(v) != c + w:
+                        raise HarnessError("limit_value(%s,%d,%s,%d,%s) decodes to %r" % (core, c, pad, w, place, v))
+
+
+# =====================================================================================================
 # (C) full turns
 # =====================================================================================================
 class AD(dict):
@@ -1662,6 +1898,7 @@ def _selfcheck_acceptor():
 def run(run: Run) -> None:
     install_canonical_merge(run)
     _selfcheck_acceptor()
+    _selfcheck_limit_builder()
     _seams()
     th = run.thorough
     # (A)+(B)
@@ -1696,6 +1933,19 @@ def run(run: Run) -> None:
         for k in range(0, len(rs), 64):
             misc.append(("llm", rs[k:k + 64], shape))
     run.pmap(_misc_worker, misc)
+    # (D2)
+    lim = limit_items(th)
+    run.pmap(_limit_worker, lim, extra=(th,), chunks=min(len(lim), 16 * 12 - 1))
+    run.notes["limit_leg"] = {"texts": run.n.get("limit_texts", 0), "accepted": run.n.get("limit_accepted", 0),
+                              "accepted_with_padding": run.n.get("limit_accepted_with_padding", 0),
+                              "texts_over_the_limit_by_padding_only": run.n.get("limit_over_by_padding_only", 0),
+                              "core_kinds": [k for k, _ in CORE_KINDS], "padding_kinds": [k for k, _ in PAD_KINDS], "placements": PLACES,
+                              "lengths": {f: {"core": limit_lengths(f, th)[0], "padding": limit_lengths(f, th)[1]} for f in sorted(LIMIT_FIELDS)},
+                              "item_counts": (COUNT_N_THOROUGH if th else COUNT_N_QUICK), "item_kinds": [k for k, _ in COUNT_ITEMS],
+                              "wrappers": (WRAPS_THOROUGH if th else WRAPS_QUICK),
+                              "entry_points": ["parse_and_validate", "plan_with_llm(result.text)"] + (["plan_with_llm({'text':..})"] if th else [])}
+    if run.n.get("limit_accepted_with_padding", 0) == 0 or run.n.get("limit_over_by_padding_only", 0) == 0:
+        raise HarnessError("vacuous limit leg: no padded text was accepted / no text exceeds a limit by padding only")
 
     try:
         json.loads(DEEP)
@@ -1724,13 +1974,25 @@ def run(run: Run) -> None:
                 "scripted plan x query text, plus a second product {mid budgets} x {template with newline/tab/CRLF separators} x "
                 "max_rag_loops {0,1} x query text) with a counting t2_semantic seam; non-trivial = a refinement retrieval happened. "
                 "(D) every token sequence within the stated length bounds over the base / composite / wrapper alphabets through "
-                "parse_and_validate; non-trivial = accepted strings.")
+                "parse_and_validate; non-trivial = accepted strings. "
+                "(D2) every documented limit x how the length is made up: for plan item (200) and rationale (2000) the full product "
+                "{core length 0, 1, M-1, M, M+1[, 2, M/2, 2M]} x {padding length 0, 1, 2, M, 3M+100[, 3, M-1, M+1]} x 5 kinds of core "
+                "character (ASCII, Latin-1, \\u-escaped ASCII, raw astral, escaped surrogate pair) x 9 kinds of padding character (space, "
+                "escaped tab / LF / CR / \\u0020, NBSP, U+3000, mixed, raw tab = not JSON) x padding placement (lead, trail, both, interior) x "
+                "sibling content (only item / first of 2 / last of 16 at-limit items; empty / full plan) x wrapper (bare, json fence[, untagged "
+                "fence, surrounding whitespace]); for the item count {0, 1, 15, 16, 17, 33[, 2, 18, 32, 64]} x 7 kinds of item lists "
+                "(identical, distinct, padded, at-limit, every other blank / empty / null); each text through parse_and_validate and "
+                "plan_with_llm; non-trivial = accepted texts (texts over a limit by padding only are counted).")
     run.assume("token budget = t3.tokens >= 1 (the validator rejects tokens < 1; a Speak op with max_tokens=0 is outside the alphabet)")
     run.assume("utterance length is measured in whitespace-separated tokens (str.split), the unit the dialogue stage documents; the "
                "swept separator alphabet is ASCII whitespace (space, tab, LF, CR LF, runs and mixtures); other Unicode spaces occur only "
                "where the odd-whitespace template carries them")
     run.assume("budget sweep: the swept budgets 1 .. n+1 are derived from the natural token count n of the utterance as rendered by the "
                "implementation with budget 256 (n <= %d for every enumerated input); budgets n+2 .. 255 are represented by 256" % SWEEP_MAX)
+    run.assume("the documented size limits (json_schemas.py: maxItems 16, maxLength 200 / 2000, minLength 1) are read as JSON Schema reads "
+               "them: on the decoded string value as it stands in the object (no trimming, no whitespace folding), in Unicode code points "
+               "(an escaped surrogate pair is one character); an implementation that measures a larger unit (bytes, UTF-16 units, the "
+               "JSON spelling) only rejects more and is not judged")
     run.assume("sanitiser oracle is one-directional (accepted => acceptable); strings the implementation rejects although a single valid "
                "object is present (raw-size guard, one-line fences) are counted in gap_* but not judged")
     run.assume("full turns run with the scheduler off (slice caps are covered at bundle level) and rule-based backend; retrieval count "
@@ -1775,6 +2037,10 @@ def replay(case):
         return res
     if k == "nonstr":
         res, _ = check_string(NON_STRINGS[case["index"]])
+        return res
+    if k == "limit":
+        c = {kk: v for kk, v in case.items() if kk != "kind"}
+        res, _, _ = check_limit_case(c, ("obj", "dict"))
         return res
     if k == "sp":
         res, _ = check_sanitize_plan(case["ops"], case["ref"], case.get("none", False))
